@@ -131,7 +131,9 @@ func LockThenBreak(cl *qsim.Cluster, track func()) string {
 	for _, z := range byz {
 		cl.ByzSendTo(z, cl.MkSimple(z, specqbft.CommitMsgType, rL, qsim.Root(v)), "commit", []*qsim.Node{D})
 	}
-	cl.DeliverWhere(func(f *qsim.Flight) bool { return f.To == D.ID && f.Msg.Message.MsgType == specqbft.CommitMsgType && len(f.Msg.Signers) == 1 }, track)
+	cl.DeliverWhere(func(f *qsim.Flight) bool {
+		return f.To == D.ID && f.Msg.Message.MsgType == specqbft.CommitMsgType && len(f.Msg.Signers) == 1
+	}, track)
 	cl.DropWhere(any)
 	others := []*qsim.Node{}
 	for _, nd := range hon {
@@ -306,4 +308,3 @@ func SplitPrepare(cl *qsim.Cluster, track func()) bool {
 	cl.Act("split-prepare done: n%d prepared on %s in round 1, the other correct operators on %s in round 2", a.ID, v[:2], vp[:2])
 	return true
 }
-
